@@ -374,13 +374,18 @@ func WithTimeout(ctx context.Context, d time.Duration) (context.Context, context
 // the unlock that they wait for.
 func (r *Run) FreeRun() {
 	r.siteDen = 0
-	for {
+	for i := 0; i < 20000; i++ {
 		en := r.Enabled()
 		if len(en) == 0 {
 			return
 		}
-		r.Release(en[0])
+		// every parked goroutine gets a turn, so tasks that wait for each other
+		// at harness pauses cannot starve one another
+		for _, p := range en {
+			r.Release(p)
+		}
 	}
+	panic("simkit: FreeRun did not quiesce (a task keeps parking at a harness pause)")
 }
 
 // CurrentTask is the name of the calling goroutine ("" for unknown ones).
